@@ -393,6 +393,14 @@ def run(chk):
                     fs = dict(files)
                     fs[f] = files[f][:k] + ["%include nowhere.conf"] + files[f][k + 1:]
                     sc.add(sid, fs, meta={"resolve": resolve, "shape": "include-missing"})
+        # include cycles: the resource opened for the second visit is refused - and closed like any other
+        for files in ({"d/main.conf": ["k0 1", "%include a.conf"], "d/a.conf": ["%include sub/b.conf"],
+                       "d/sub/b.conf": ["# b", "%include ../a.conf"]},
+                      {"d/main.conf": ["%include main.conf"]},
+                      {"d/main.conf": ["<mid>", "  %include a.conf", "</mid>"], "d/a.conf": ["bk v1", "%include a.conf"]},
+                      {"d/main.conf": ["%include a.conf", "%include a.conf"], "d/a.conf": ["%include b.conf"],
+                       "d/b.conf": ["%include main.conf"]}):
+            sc.add(0, files, meta={"shape": "include-cycle"})
         for it in sc.items:
             if it["meta"].get("clean") is not None:
                 it["twin"] = None
